@@ -1672,10 +1672,30 @@ func ruleTxn4(c *Ctx, r *Reporter) {
 		return ok && calleeObj(&call.Call) == newTxn
 	}
 	n := 0
-	for _, ret := range returnsOf(fn) {
-		if ret.Block() == fn.Recover || len(ret.Results) != 2 {
-			continue
+	// the returns of Begin; where Begin ends by returning what a private helper returns, that helper's returns
+	var rets []*ssa.Return
+	var collect func(g *ssa.Function, depth int)
+	collect = func(g *ssa.Function, depth int) {
+		for _, ret := range returnsOf(g) {
+			if ret.Block() == g.Recover || len(ret.Results) != 2 {
+				continue
+			}
+			if ex, ok := retVal(ret, 0).(*ssa.Extract); ok && depth < 3 {
+				if call, ok := ex.Tuple.(*ssa.Call); ok {
+					if h := privateHelperOf(&call.Call); h != nil {
+						if ex1, ok := retVal(ret, 1).(*ssa.Extract); ok && ex1.Tuple == ex.Tuple {
+							collect(h, depth+1)
+							continue
+						}
+					}
+				}
+			}
+			rets = append(rets, ret)
 		}
+	}
+	collect(fn, 0)
+	for _, ret := range rets {
+		fn := ret.Parent()
 		if !isNilConst(retVal(ret, 1)) {
 			continue
 		}
